@@ -661,30 +661,41 @@ func main() {
 		Name: "c18pq", Import: "IV.Check.C18Check", CaseType: "pq_case",
 		Checks: []string{"pq_mismatches", "pq_spec_failures"},
 	}
-	sets := []*cq.Set{jbs, pqs}
+	ris := &cq.Set{
+		Name: "c18ri", Import: "IV.Check.C18bCheck", CaseType: "ri_case",
+		Checks: []string{"ri_mismatches", "ri_spec_failures"},
+	}
+	sets := []*cq.Set{jbs, pqs, ris}
 	isPQ := func(ops []opJ) bool { return len(ops) > 0 && ops[0].K[0] == 'q' }
 	if o.Replay != "" {
-		var c jbCase
+		var c anyCase
 		cq.LoadReplay(o.Replay, &c)
-		if isPQ(c.Ops) {
+		if len(c.Ins) > 0 {
+			ris.Cases = append(ris.Cases, replayRI(c.Ins).toCase(map[string]bool{"replay": true}))
+		} else if isPQ(c.Ops) {
 			pqs.Cases = append(pqs.Cases, replayPQ(pqCase{Ops: c.Ops}).toCase(map[string]bool{"replay": true}))
 		} else {
-			jbs.Cases = append(jbs.Cases, replayJB(c).toCase(map[string]bool{"replay": true}))
+			jbs.Cases = append(jbs.Cases, replayJB(c.jbCase).toCase(map[string]bool{"replay": true}))
 		}
 		cq.Write(o, "replay", sets, nil, fails)
 
 		return
 	}
 	for _, f := range o.CorpusFiles() {
-		var c jbCase
+		var c anyCase
 		cq.LoadReplay(f, &c)
+		if len(c.Ins) > 0 {
+			ris.Cases = append(ris.Cases, replayRI(c.Ins).toCase(map[string]bool{"corpus": true}))
+
+			continue
+		}
 		if len(c.Ops) == 0 {
 			continue
 		}
 		if isPQ(c.Ops) {
 			pqs.Cases = append(pqs.Cases, replayPQ(pqCase{Ops: c.Ops}).toCase(map[string]bool{"corpus": true}))
 		} else {
-			jbs.Cases = append(jbs.Cases, replayJB(c).toCase(map[string]bool{"corpus": true}))
+			jbs.Cases = append(jbs.Cases, replayJB(c.jbCase).toCase(map[string]bool{"corpus": true}))
 		}
 	}
 	for _, c := range scripted() {
@@ -703,9 +714,23 @@ func main() {
 		c, b := genPQ(rnd)
 		pqs.Cases = append(pqs.Cases, c.toCase(b))
 	}
+	for _, ins := range scriptedRI() {
+		if hangs >= maxHangs {
+			break
+		}
+		ris.Cases = append(ris.Cases, replayRI(ins).toCase(map[string]bool{"scripted": true}))
+	}
+	nri := o.Scale(400, 8000)
+	for i := 0; i < nri && hangs < maxHangs; i++ {
+		c, b := genRI(rnd)
+		ris.Cases = append(ris.Cases, c.toCase(b))
+	}
 	extra := map[string]interface{}{"hangs_observed": hangs, "watchdog": watchdog.String()}
 	cq.Write(o, "jb: histories of 8..120 public-API calls (push in order/loss/late/duplicates of head, tail, any; all pops, peeks, "+
 		"SetPlayoutHead, Clear) for minimum start counts {0,1,2,3,5,8,50}; distinct by content; non-trivial = at least two pushes "+
 		"and one packet returned; pq: 5..54 direct PriorityQueue calls with priorities drawn from a window of 3..14 values "+
-		"(many duplicates), priority independent of the packet's own sequence number; non-trivial = one packet returned", sets, extra, fails)
+		"(many duplicates), priority independent of the packet's own sequence number; non-trivial = one packet returned; "+
+		"ri: 55..200 upstream reads (well-formed packets with local reordering, loss, duplicates, wrap-around; unparsable bytes; reader "+
+		"errors; Unbind/Close) through the real receiver interceptor, deliveries identified byte-for-byte; non-trivial = two deliveries",
+		sets, extra, fails)
 }
